@@ -1,0 +1,20 @@
+// Copyright 2025 The Go Authors. All rights reserved.
+// Use of this source code is governed by a BSD-style
+// license that can be found in the LICENSE file.
+
+//go:build verif
+
+package s2k
+
+// Verification hooks (build tag "verif" only): the count codec is unexported, and the decoded
+// counts of the upper count bytes (up to 65 011 712 octets) are too large to observe through
+// hashing in a differential run.
+
+// VerifDecodeCount exposes decodeCount.
+func VerifDecodeCount(c uint8) int { return decodeCount(c) }
+
+// VerifEncodeCount exposes encodeCount (panics outside [1024, 65011712]).
+func VerifEncodeCount(i int) uint8 { return encodeCount(i) }
+
+// VerifConfigEncodedCount exposes (*Config).encodedCount.
+func VerifConfigEncodedCount(c *Config) uint8 { return c.encodedCount() }
